@@ -112,7 +112,12 @@ impl DwarfRegistry {
                 .max_by(|map1, map2| map1.start().cmp(&map2.start()))
                 .expect("at least one mapping must exists");
 
-            let mapping = lower_sect.start();
+            // The load bias is the start of the lowest mapping minus the (page aligned) virtual
+            // address of the first loadable segment: zero for position-dependent executables
+            // (ET_EXEC, linked at a fixed address), the mapping start itself for PIE
+            // executables and shared objects, whose first segment has address 0.
+            let first_segment_addr = lowest_load_address(absolute_debugee_path).unwrap_or(0);
+            let mapping = lower_sect.start().saturating_sub(first_segment_addr);
 
             let range = RegionRange {
                 from: RelocatedAddress::from(lower_sect.start()),
@@ -303,4 +308,13 @@ impl DwarfRegistry {
         });
         regions
     }
+}
+
+/// Lowest virtual address of a loadable segment of an ELF file, aligned down to its page.
+fn lowest_load_address(path: &std::path::Path) -> Option<usize> {
+    use object::{Object, ObjectSegment};
+    let data = std::fs::read(path).ok()?;
+    let file = object::File::parse(&*data).ok()?;
+    let addr = file.segments().map(|segment| segment.address()).min()?;
+    Some((addr & !0xfff) as usize)
 }
